@@ -1937,6 +1937,17 @@ class _FoldConst(ast.NodeTransformer):
             hits = [e for k_, e in zip(node.value.keys, node.value.values) if u(k_) == u(node.slice)]
             if len(hits) == 1 and len({u(k_) for k_ in node.value.keys}) == len(node.value.keys):
                 return hits[0]
+        if isinstance(node.ctx, ast.Load) and isinstance(node.value, ast.Dict) and len(node.value.keys) == 2 \
+                and all(isinstance(k_, ast.Constant) and isinstance(k_.value, bool) for k_ in node.value.keys) \
+                and {k_.value for k_ in node.value.keys} == {True, False} and all(norm.is_pure(e, _PURE_EXT) for e in node.value.values):
+            # {True: a, False: b}[<a truth value>]: the choice between the two
+            sl = node.slice
+            is_bool = (isinstance(sl, ast.Call) and isinstance(sl.func, ast.Name) and sl.func.id == "bool" and len(sl.args) == 1 and not sl.keywords) \
+                or isinstance(sl, ast.Compare) or (isinstance(sl, ast.UnaryOp) and isinstance(sl.op, ast.Not))
+            if is_bool:
+                test = sl.args[0] if isinstance(sl, ast.Call) else sl
+                by = {k_.value: e for k_, e in zip(node.value.keys, node.value.values)}
+                return ast.fix_missing_locations(ast.copy_location(ast.IfExp(test=test, body=by[True], orelse=by[False]), node))
         if not isinstance(node.ctx, ast.Load) or not isinstance(node.slice, ast.Constant):
             return node
         v, k = node.value, node.slice.value
@@ -4557,7 +4568,8 @@ class Canon:
             i = 0
             while i + 1 < len(b):
                 s1, t_ = b[i], b[i + 1]
-                if isinstance(s1, ast.If) and s1.orelse and isinstance(t_, (ast.Expr, ast.Assign, ast.Return)) and isinstance(t_.value, ast.Call) and isinstance(t_.value.func, ast.Name):
+                called = {n.func.id for n in ast.walk(t_) if isinstance(n, ast.Call) and isinstance(n.func, ast.Name)} if isinstance(t_, (ast.Expr, ast.Assign, ast.Return)) else set()
+                if isinstance(s1, ast.If) and s1.orelse and isinstance(t_, (ast.Expr, ast.Assign, ast.Return)) and t_.value is not None and called:
                     def picks(blk):
                         """trailing `name = <name / constant>` statements of the arm: {name: value} and the rest"""
                         mp, k = {}, len(blk)
@@ -4569,9 +4581,8 @@ class Canon:
                     pa, ra = picks(s1.body)
                     pb, rb = picks(s1.orelse)
                     names = set(pa) & set(pb)
-                    fn_name = t_.value.func.id
                     used = {n.id for n in ast.walk(t_) if isinstance(n, ast.Name)}
-                    if fn_name in names and set(pa) == set(pb) == (names & used) | (names - used) and names <= used | set() and names:
+                    if (called & names) and set(pa) == set(pb) == names and names <= used:
                         # the picked names are read only by the statement that follows
                         total = sum(1 for x in stmts for n in ast.walk(x) if isinstance(n, ast.Name) and n.id in names and isinstance(n.ctx, ast.Load))
                         here = sum(1 for n in ast.walk(t_) if isinstance(n, ast.Name) and n.id in names and isinstance(n.ctx, ast.Load))
@@ -4885,6 +4896,7 @@ class Canon:
                 b = _drop_dead_temps(norm.forward_subst(subst_single_use(b4), pure_calls=_PURE_EXT))
         b = self.fold_own_bodies(b, module, cls, fn)
         b = polarity(fold_constant_ifs(expr_norm(b)))          # (expression idioms may have produced `not all(..)` tests)
+        b = self.sink_selected_tail(lift_ifexp(b))
         for s in b:
             ast.fix_missing_locations(s)
         # helpers the tables do not know that only became visible at the end (a loop fused late, a table unrolled late): once more
